@@ -26,6 +26,7 @@ import (
 var (
 	repo   = flag.String("repo", "/repo", "repository root")
 	outDir = flag.String("out", "", "output directory (coq/Generated)")
+	fallbackDir = flag.String("fallback", "", "directory with the last committed good copies of the generated files")
 	fset   = token.NewFileSet()
 	files  = map[string]*ast.File{}
 	errs   []string
@@ -297,12 +298,13 @@ func reTerm(r *syntax.Regexp, underRep bool, where string) string {
 }
 
 type gen struct {
-	name string
-	buf  bytes.Buffer
+	name    string
+	buf     bytes.Buffer
+	errsAt0 int
 }
 
 func newGen(name, header string) *gen {
-	g := &gen{name: name}
+	g := &gen{name: name, errsAt0: len(errs)}
 	fmt.Fprintf(&g.buf, "(* GENERATED by goextract from %s — do not edit. *)\n%s\n", "the repository's Go sources", header)
 	return g
 }
@@ -319,8 +321,20 @@ func (g *gen) def(name, typ, term, comment string) {
 	c := strings.NewReplacer("(*", "( *", "*)", "* )", "\"", "'").Replace(comment)
 	fmt.Fprintf(&g.buf, "(* %s *)\nDefinition %s : %s := %s.\n", c, name, typ, term)
 }
+// write stores the generated file. If this generator reported an error (a
+// symbol or idiom it needs is gone: a broken tie, reported by exit status 1),
+// the last good file is kept — or restored from the committed fallback copy —
+// so that the model still runs and the search for a failing input can proceed.
 func (g *gen) write() {
 	p := filepath.Join(*outDir, g.name+".v")
+	if len(errs) > g.errsAt0 {
+		if _, err := os.Stat(p); err != nil && *fallbackDir != "" {
+			if b, err := os.ReadFile(filepath.Join(*fallbackDir, g.name+".v")); err == nil {
+				_ = os.WriteFile(p, b, 0o644)
+			}
+		}
+		return
+	}
 	old, _ := os.ReadFile(p)
 	if !bytes.Equal(old, g.buf.Bytes()) {
 		if err := os.WriteFile(p, g.buf.Bytes(), 0o644); err != nil {
